@@ -22,7 +22,8 @@ configurations G4 (gen/g4_sampler.py).  For every returned molecule:
                        included, is a contiguous block), fragids are 0..k-1, every node of a copy carries the same
                        fragname, and it is the name of a given fragment;
   valence              all-atom samples: every heavy atom's bond-order sum is its usual valence, every hydrogen has
-                       degree 1 and its neighbour's fragid / fragname / weight (specs/sampler_spec.check_valence_local).
+                       degree 1 and its neighbour's fragid / fragname / weight (specs/valence.check_valence of C09 when
+                       present, and the conservative specs/sampler_spec.check_valence_local).
 
 Scope decisions
   * The template of every fragment is known by construction (hand-written skeleton library + descriptors placed
@@ -57,7 +58,7 @@ N_RANDOM = {'quick': 9000, 'thorough': 250000}
 BOUNDS = {
     'quick': {'fragments': '1..4', 'descriptors_per_fragment': '1..4', 'kinds': ['$', '>', '<'], 'labels': ['', 'A', 'B', 'C'],
               'orders': [1, 2, 3], 'skeletons_all_atom': len(g4.LIB_AA), 'skeletons_coarse': len(g4.LIB_CG),
-              'scenario_seeds': '0..7', 'systematic_family': 'AB fragment x 9x9 descriptor pairs x optional cap (9) x 3 reactivity tables x terminal/not x seeds 0..1 x targets 15, 18',
+              'scenario_seeds': '0..7', 'systematic_family': 'AB fragment x 9x9 descriptor pairs x optional cap (9) x 3 reactivity tables x terminal/not x seeds 0..1 x targets 10, 17; only configurations where every directed descriptor has its complement',
               'random_configurations': N_RANDOM['quick'], 'random_seeds': '0..15', 'copies_per_molecule': '<= ~13'},
     'thorough': {'fragments': '1..4', 'descriptors_per_fragment': '1..4', 'kinds': ['$', '>', '<'], 'labels': ['', 'A', 'B', 'C'],
                  'orders': [1, 2, 3], 'skeletons_all_atom': len(g4.LIB_AA), 'skeletons_coarse': len(g4.LIB_CG),
@@ -90,6 +91,20 @@ def cases(tier, seed):
         yield {'cfg': c}
     for c in g4.random_cases(tier, seed, N_RANDOM[tier]):
         yield {'cfg': c}
+
+
+try:    # C09's per-atom oracle of the "molecules" builder (independent valence table incl. the aromatic rule)
+    from specs.valence import check_valence as _check_valence
+except Exception:  # noqa — not there (yet): the conservative local check alone
+    _check_valence = None
+
+
+def valence_problems(mol):
+    out = list(sp.check_valence_local(mol))
+    if _check_valence is not None:
+        for kind, node, detail in _check_valence(mol):
+            out.append(('hydrogen-attrs' if kind == 'h-attribute' else 'valence', detail))
+    return out
 
 
 def classify(cfg, kind):
@@ -190,7 +205,7 @@ def check_molecule(mol, cfg, tpls):
                 {x: used[x] for x in nodes if x in used}, {i: d for i, d in tpl['desc'].items() if d})))
     # ---- valence completeness
     if cfg['all_atom']:
-        out.extend(sp.check_valence_local(mol))
+        out.extend(valence_problems(mol))
     return out
 
 
